@@ -246,7 +246,7 @@ Definition model_time (lk : lookup) (t : Z) (e : pentry) : bool :=
   match lk with
   | LkTxnTime => pe_ts e <=? t
   | LkGivenTime r => pe_ts e <? r
-  | LkLastPrice => pe_ts e <? TS_MAX
+  | LkLastPrice => true
   | LkNone => false
   end.
 Definition mcand (lk : lookup) (tgt c : list N) (t : Z) (e : pentry) : bool :=
@@ -261,7 +261,7 @@ Qed.
 
 Lemma fixed_keep_mcand used tgt ref c e : mem_str c used = true ->
   fixed_keep used tgt ref e && str_eqb c (pe_base e)
-  = str_eqb (pe_base e) c && str_eqb (pe_eq e) tgt && (pe_ts e <? ref).
+  = str_eqb (pe_base e) c && str_eqb (pe_eq e) tgt && before_ref ref e.
 Proof.
   intros Hu. unfold fixed_keep. rewrite (str_eqb_sym c (pe_base e)).
   destruct (str_eqb (pe_base e) c) eqn:E.
@@ -343,7 +343,13 @@ Proof.
     + apply sort_by_in. exact H.
 Qed.
 
-Lemma convert_post_nonempty cch tgt t p : p_comm p <> [] ->
+Lemma convert_post_target cch tgt t p : p_comm p = tgt -> convert_post cch tgt t p = unconverted p.
+Proof.
+  intros E. unfold convert_post. destruct (p_comm p) eqn:Ec; [reflexivity|].
+  rewrite <- E, str_eqb_refl. reflexivity.
+Qed.
+
+Lemma convert_post_nonempty cch tgt t p : p_comm p <> [] -> p_comm p <> tgt ->
   convert_post cch tgt t p =
   match cch with
   | CFixed m =>
@@ -361,15 +367,18 @@ Lemma convert_post_nonempty cch tgt t p : p_comm p <> [] ->
       | None => unconverted p
       end
   end.
-Proof. unfold convert_post. destruct (p_comm p); [congruence|reflexivity]. Qed.
+Proof.
+  intros H1 H2. apply str_eqb_neq in H2. unfold convert_post. rewrite H2.
+  destruct (p_comm p); [congruence|reflexivity].
+Qed.
 
 Lemma fixed_unchanged used tgt ref db t p :
-  p_comm p <> [] ->
+  p_comm p <> [] -> p_comm p <> tgt ->
   (mem_str (p_comm p) used = false \/
-   forall e, In e db -> str_eqb (pe_base e) (p_comm p) && str_eqb (pe_eq e) tgt && (pe_ts e <? ref) = false) ->
+   forall e, In e db -> str_eqb (pe_base e) (p_comm p) && str_eqb (pe_eq e) tgt && before_ref ref e = false) ->
   convert_post (CFixed (fixed_cache used tgt ref db)) tgt t p = unconverted p.
 Proof.
-  intros Hc H. rewrite convert_post_nonempty by exact Hc. rewrite fixed_cache_get.
+  intros Hc Ht H. rewrite convert_post_nonempty by assumption. rewrite fixed_cache_get.
   replace (last_sat (fun e => fixed_keep used tgt ref e && str_eqb (p_comm p) (pe_base e)) db) with (@None pentry);
     [reflexivity|].
   symmetry. apply last_sat_none. intros e He.
@@ -380,12 +389,12 @@ Proof.
 Qed.
 
 Lemma timed_unchanged used tgt db t p :
-  p_comm p <> [] ->
+  p_comm p <> [] -> p_comm p <> tgt ->
   (mem_str (p_comm p) used = false \/
    forall e, In e db -> str_eqb (pe_base e) (p_comm p) && str_eqb (pe_eq e) tgt && (pe_ts e <=? t) = false) ->
   convert_post (CTimed (timed_cache used tgt db)) tgt t p = unconverted p.
 Proof.
-  intros Hc H. rewrite convert_post_nonempty by exact Hc. rewrite timed_cache_get.
+  intros Hc Ht H. rewrite convert_post_nonempty by assumption. rewrite timed_cache_get.
   destruct (mem_str (p_comm p) used) eqn:Hu; [|reflexivity].
   destruct H as [H|H]; [discriminate|].
   destruct (comm_cache tgt (p_comm p) db) as [|x cc] eqn:Ec; [reflexivity|].
@@ -399,11 +408,19 @@ Proof.
 Qed.
 
 Lemma make_ctx_unchanged lk txns tgt db t p :
-  (p_comm p = [] \/ ~ In (p_comm p) (posting_comms txns) \/
+  (p_comm p = [] \/ p_comm p = tgt \/ ~ In (p_comm p) (posting_comms txns) \/
    forall e, In e db -> mcand lk tgt (p_comm p) t e = false) ->
   convert_post (c_cache (make_ctx lk txns (Some tgt) db)) tgt t p = unconverted p.
 Proof.
-  intros H. destruct (p_comm p) as [|c0 cs] eqn:Ec.
+  intros H.
+  destruct (str_eqb (p_comm p) tgt) eqn:Et.
+  { apply convert_post_target. apply str_eqb_eq. exact Et. }
+  apply str_eqb_neq in Et.
+  assert (p_comm p = [] \/ ~ In (p_comm p) (posting_comms txns) \/
+          forall e, In e db -> mcand lk tgt (p_comm p) t e = false) as H0
+    by (destruct H as [H|[H|H]]; [left; exact H|contradiction|right; exact H]).
+  clear H. rename H0 into H.
+  destruct (p_comm p) as [|c0 cs] eqn:Ec.
   { unfold convert_post. rewrite Ec. reflexivity. }
   assert (p_comm p <> []) as Hne by (rewrite Ec; discriminate).
   rewrite <- Ec in *.
@@ -413,25 +430,25 @@ Proof.
     destruct (mem_str (p_comm p) (used_commodities txns)) eqn:E; [|reflexivity].
     apply used_commodities_in in E. contradiction. }
   clear H. unfold make_ctx. destruct lk; cbn [c_cache default_ctx].
-  - rewrite convert_post_nonempty by exact Hne. reflexivity.
+  - rewrite convert_post_nonempty by assumption. reflexivity.
   - apply timed_unchanged; assumption.
   - apply fixed_unchanged; assumption.
   - apply fixed_unchanged; assumption.
 Qed.
 
 Lemma fixed_rate used tgt ref db t p e0 :
-  ts_sorted db -> p_comm p <> [] -> mem_str (p_comm p) used = true ->
-  In e0 db -> str_eqb (pe_base e0) (p_comm p) && str_eqb (pe_eq e0) tgt && (pe_ts e0 <? ref) = true ->
-  exists e, In e db /\ str_eqb (pe_base e) (p_comm p) && str_eqb (pe_eq e) tgt && (pe_ts e <? ref) = true /\
-    (forall e', In e' db -> str_eqb (pe_base e') (p_comm p) && str_eqb (pe_eq e') tgt && (pe_ts e' <? ref) = true ->
+  ts_sorted db -> p_comm p <> [] -> p_comm p <> tgt -> mem_str (p_comm p) used = true ->
+  In e0 db -> str_eqb (pe_base e0) (p_comm p) && str_eqb (pe_eq e0) tgt && before_ref ref e0 = true ->
+  exists e, In e db /\ str_eqb (pe_base e) (p_comm p) && str_eqb (pe_eq e) tgt && before_ref ref e = true /\
+    (forall e', In e' db -> str_eqb (pe_base e') (p_comm p) && str_eqb (pe_eq e') tgt && before_ref ref e' = true ->
                 pe_ts e' <= pe_ts e) /\
     convert_post (CFixed (fixed_cache used tgt ref db)) tgt t p
     = mkConv (p_acc p) tgt (dmul (p_amount p) (pe_rate e)) None.
 Proof.
-  intros Hs Hc Hu Hin0 Hc0. rewrite convert_post_nonempty by exact Hc. rewrite fixed_cache_get.
-  rewrite (last_sat_ext _ (fun e => str_eqb (pe_base e) (p_comm p) && str_eqb (pe_eq e) tgt && (pe_ts e <? ref)))
+  intros Hs Hc Htg Hu Hin0 Hc0. rewrite convert_post_nonempty by assumption. rewrite fixed_cache_get.
+  rewrite (last_sat_ext _ (fun e => str_eqb (pe_base e) (p_comm p) && str_eqb (pe_eq e) tgt && before_ref ref e))
     by (intros e _; apply fixed_keep_mcand; exact Hu).
-  destruct (last_sat (fun e => str_eqb (pe_base e) (p_comm p) && str_eqb (pe_eq e) tgt && (pe_ts e <? ref)) db) as [e|] eqn:El.
+  destruct (last_sat (fun e => str_eqb (pe_base e) (p_comm p) && str_eqb (pe_eq e) tgt && before_ref ref e) db) as [e|] eqn:El.
   - exists e. destruct (last_sat_some _ _ _ El) as [H1 H2]. split; [exact H1|]. split; [exact H2|].
     split; [|reflexivity]. intros e' He' Pe'.
     apply (last_sat_max _ db e Hs El e' He' Pe').
@@ -439,7 +456,7 @@ Proof.
 Qed.
 
 Lemma timed_rate used tgt db t p e0 :
-  p_comm p <> [] -> mem_str (p_comm p) used = true ->
+  p_comm p <> [] -> p_comm p <> tgt -> mem_str (p_comm p) used = true ->
   In e0 db -> str_eqb (pe_base e0) (p_comm p) && str_eqb (pe_eq e0) tgt && (pe_ts e0 <=? t) = true ->
   exists e, In e db /\ str_eqb (pe_base e) (p_comm p) && str_eqb (pe_eq e) tgt && (pe_ts e <=? t) = true /\
     (forall e', In e' db -> str_eqb (pe_base e') (p_comm p) && str_eqb (pe_eq e') tgt && (pe_ts e' <=? t) = true ->
@@ -447,7 +464,7 @@ Lemma timed_rate used tgt db t p e0 :
     convert_post (CTimed (timed_cache used tgt db)) tgt t p
     = mkConv (p_acc p) tgt (dmul (p_amount p) (pe_rate e)) (Some (pe_rate e)).
 Proof.
-  intros Hc Hu Hin0 Hc0. rewrite convert_post_nonempty by exact Hc. rewrite timed_cache_get, Hu.
+  intros Hc Htg Hu Hin0 Hc0. rewrite convert_post_nonempty by assumption. rewrite timed_cache_get, Hu.
   rewrite !andb_true_iff, !str_eqb_eq, Z.leb_le in Hc0. destruct Hc0 as [[Hb0 He0] Ht0].
   assert (In e0 (comm_cache tgt (p_comm p) db)) as Hcc0 by (apply comm_cache_in; tauto).
   destruct (comm_cache tgt (p_comm p) db) as [|x cc] eqn:Ec; [destruct Hcc0|].
@@ -464,18 +481,18 @@ Proof.
 Qed.
 
 Lemma make_ctx_rate lk txns tgt db t p e0 :
-  ts_sorted db -> p_comm p <> [] -> In (p_comm p) (posting_comms txns) ->
+  ts_sorted db -> p_comm p <> [] -> p_comm p <> tgt -> In (p_comm p) (posting_comms txns) ->
   In e0 db -> mcand lk tgt (p_comm p) t e0 = true ->
   exists e, In e db /\ mcand lk tgt (p_comm p) t e = true /\
     (forall e', In e' db -> mcand lk tgt (p_comm p) t e' = true -> pe_ts e' <= pe_ts e) /\
     convert_post (c_cache (make_ctx lk txns (Some tgt) db)) tgt t p = converted lk tgt p e.
 Proof.
-  intros Hs Hc Hu Hin0 Hc0. apply used_commodities_in in Hu.
+  intros Hs Hc Htg Hu Hin0 Hc0. apply used_commodities_in in Hu.
   unfold make_ctx, converted, mcand in *. destruct lk; cbn [c_cache shown model_time] in *.
   - rewrite andb_false_r in Hc0. discriminate.
   - apply (timed_rate _ tgt db t p e0); assumption.
-  - apply (fixed_rate _ tgt TS_MAX db t p e0); assumption.
-  - apply (fixed_rate _ tgt t0 db t p e0); assumption.
+  - apply (fixed_rate _ tgt None db t p e0); assumption.
+  - apply (fixed_rate _ tgt (Some t0) db t p e0); assumption.
 Qed.
 
 (* ------------------------------------------------------------------ *)
@@ -484,15 +501,11 @@ Qed.
 Lemma mcand_imp_candidate lk tgt c t e : mcand lk tgt c t e = true -> candidate lk tgt c t e = true.
 Proof.
   unfold mcand, candidate. rewrite !andb_true_iff. intros [H1 H2]. split; [exact H1|].
-  destruct lk; cbn [model_time in_time] in *; try exact H2. reflexivity.
+  destruct lk; cbn [model_time in_time] in *; exact H2.
 Qed.
 
-Lemma mcand_candidate lk f tgt c t e : file_ok lk f -> In e f -> mcand lk tgt c t e = candidate lk tgt c t e.
-Proof.
-  intros [_ Hr] He. unfold mcand, candidate. f_equal.
-  destruct lk; cbn [model_time in_time]; try reflexivity.
-  apply Z.ltb_lt. apply (Hr eq_refl). exact He.
-Qed.
+Lemma mcand_candidate lk tgt c t e : mcand lk tgt c t e = candidate lk tgt c t e.
+Proof. reflexivity. Qed.
 
 Lemma RateAt_unique lk f tgt c t e1 e2 : distinct_keys f ->
   RateAt lk f tgt c t e1 -> RateAt lk f tgt c t e2 -> e1 = e2.
@@ -576,42 +589,43 @@ Proof. intros [I [C _]] H. rewrite (H e I) in C. discriminate. Qed.
 
 (* the theorems about one posting *)
 Lemma convert_unchanged lk txns tgt f t p :
-  (p_comm p = [] \/ ~ In (p_comm p) (posting_comms txns) \/ NoRate lk f tgt (p_comm p) t) ->
+  (p_comm p = [] \/ p_comm p = tgt \/ ~ In (p_comm p) (posting_comms txns) \/ NoRate lk f tgt (p_comm p) t) ->
   convert_one lk txns tgt f t p = unconverted p.
 Proof.
   intros H. unfold convert_one. apply make_ctx_unchanged.
-  destruct H as [H|[H|H]]; [left; exact H|right; left; exact H|right; right].
+  destruct H as [H|[H|[H|H]]]; [left; exact H|right; left; exact H|right; right; left; exact H|right; right; right].
   intros e He. apply load_db_in in He. specialize (H e He).
   destruct (mcand lk tgt (p_comm p) t e) eqn:E; [|reflexivity].
   apply mcand_imp_candidate in E. congruence.
 Qed.
 
 Lemma convert_rate lk txns tgt f t p e :
-  file_ok lk f -> p_comm p <> [] -> In (p_comm p) (posting_comms txns) ->
+  distinct_keys f -> p_comm p <> [] -> p_comm p <> tgt -> In (p_comm p) (posting_comms txns) ->
   RateAt lk f tgt (p_comm p) t e ->
   convert_one lk txns tgt f t p = converted lk tgt p e.
 Proof.
-  intros Hok Hc Hu HR. pose proof Hok as [Hd _]. destruct HR as [I [C M]].
+  intros Hd Hc Htg Hu HR. destruct HR as [I [C M]].
   destruct (make_ctx_rate lk txns tgt (load_db f) t p e) as [e' [I' [C' [M' Hconv]]]].
   - apply load_db_ts_sorted. exact Hd.
   - exact Hc.
+  - exact Htg.
   - exact Hu.
   - apply (proj2 (load_db_in_iff f e Hd)). exact I.
-  - rewrite (mcand_candidate lk f) by assumption. exact C.
+  - rewrite mcand_candidate. exact C.
   - unfold convert_one. rewrite Hconv. f_equal.
     apply (RateAt_unique lk f tgt (p_comm p) t); [exact Hd| |split; [exact I|split; [exact C|exact M]]].
     apply (proj1 (load_db_in_iff f e' Hd)) in I'.
-    split; [exact I'|]. split; [rewrite <- (mcand_candidate lk f) by assumption; exact C'|].
+    split; [exact I'|]. split; [rewrite <- mcand_candidate; exact C'|].
     intros e2 I2 C2. apply M'; [apply (proj2 (load_db_in_iff f e2 Hd)); exact I2|].
-    rewrite (mcand_candidate lk f) by assumption. exact C2.
+    rewrite mcand_candidate. exact C2.
 Qed.
 
 Lemma convert_rate_value lk txns tgt f t p e :
-  file_ok lk f -> p_comm p <> [] -> In (p_comm p) (posting_comms txns) ->
+  distinct_keys f -> p_comm p <> [] -> p_comm p <> tgt -> In (p_comm p) (posting_comms txns) ->
   RateAt lk f tgt (p_comm p) t e -> (ds (p_amount p) + ds (pe_rate e) <= 28)%N ->
   d28 (cv_amount (convert_one lk txns tgt f t p)) * pow10 28 = d28 (p_amount p) * d28 (pe_rate e).
 Proof.
-  intros Hok Hc Hu HR Hs. rewrite (convert_rate lk txns tgt f t p e) by assumption.
+  intros Hok Hc Htg Hu HR Hs. rewrite (convert_rate lk txns tgt f t p e) by assumption.
   unfold converted. cbn [cv_amount]. apply d28_dmul. exact Hs.
 Qed.
 
@@ -621,10 +635,8 @@ Proof.
 Qed.
 
 Lemma convert_target_unchanged lk txns tgt f t p :
-  no_self_pair tgt f -> p_comm p = tgt -> convert_one lk txns tgt f t p = unconverted p.
-Proof.
-  intros H E. apply convert_unchanged. right. right. rewrite E. apply no_self_pair_norate. exact H.
-Qed.
+  p_comm p = tgt -> convert_one lk txns tgt f t p = unconverted p.
+Proof. intros E. apply convert_unchanged. right. left. exact E. Qed.
 
 Lemma NoDup_map_filter {A B} (key : A -> B) q l : NoDup (map key l) -> NoDup (map key (filter q l)).
 Proof.
@@ -637,25 +649,25 @@ Qed.
 
 Definition relevant (tgt c : list N) (e : pentry) : bool := str_eqb (pe_base e) c && str_eqb (pe_eq e) tgt.
 
-Lemma file_ok_filter lk f q : file_ok lk f -> file_ok lk (filter q f).
-Proof.
-  intros [Hd Hr]. split; [apply NoDup_map_filter; exact Hd|].
-  intros E e He. apply filter_In in He. apply (Hr E). tauto.
-Qed.
+Lemma distinct_keys_filter f q : distinct_keys f -> distinct_keys (filter q f).
+Proof. apply NoDup_map_filter. Qed.
 
 Lemma convert_no_invention lk txns tgt f t p :
-  file_ok lk f ->
+  distinct_keys f ->
   convert_one lk txns tgt f t p = convert_one lk txns tgt (filter (relevant tgt (p_comm p)) f) t p.
 Proof.
   intros Hok. set (f' := filter (relevant tgt (p_comm p)) f).
-  assert (file_ok lk f') as Hok' by (apply file_ok_filter; exact Hok).
+  assert (distinct_keys f') as Hok' by (apply distinct_keys_filter; exact Hok).
+  destruct (str_eqb (p_comm p) tgt) eqn:Et.
+  { apply str_eqb_eq in Et. rewrite !convert_unchanged by (right; left; exact Et). reflexivity. }
+  apply str_eqb_neq in Et.
   assert (p_comm p = [] \/ p_comm p <> []) as [Ec|Hne]
     by (destruct (p_comm p); [left; reflexivity|right; discriminate]).
   { rewrite !convert_unchanged by (left; exact Ec). reflexivity. }
   destruct (mem_str (p_comm p) (used_commodities txns)) eqn:Hu.
   2:{ assert (~ In (p_comm p) (posting_comms txns)) as Hn.
       { intros Hin. apply used_commodities_in in Hin. congruence. }
-      rewrite !convert_unchanged by (right; left; exact Hn). reflexivity. }
+      rewrite !convert_unchanged by (right; right; left; exact Hn). reflexivity. }
   apply used_commodities_in in Hu.
   destruct (rate_at lk f tgt (p_comm p) t) as [e|] eqn:Er.
   - apply rate_at_some in Er. rewrite (convert_rate lk txns tgt f t p e) by assumption.
@@ -664,8 +676,8 @@ Proof.
     + apply filter_In. split; [exact I|]. unfold relevant. unfold candidate in C.
       rewrite !andb_true_iff in C. rewrite andb_true_iff. tauto.
     + intros e' He'. apply filter_In in He'. apply M. tauto.
-  - apply rate_at_none in Er. rewrite (convert_unchanged lk txns tgt f) by (right; right; exact Er).
-    symmetry. apply convert_unchanged. right. right. intros e He. apply filter_In in He. apply Er. tauto.
+  - apply rate_at_none in Er. rewrite (convert_unchanged lk txns tgt f) by (right; right; right; exact Er).
+    symmetry. apply convert_unchanged. right. right. right. intros e He. apply filter_In in He. apply Er. tauto.
 Qed.
 
 (* ------------------------------------------------------------------ *)
@@ -759,14 +771,14 @@ Proof.
 Qed.
 
 (* lookup-independent statement for the two fixed modes, on the file *)
-Definition FixedMeta (tgt : list N) (f : list pentry) (txns : list txn) (ref : Z) (recs : list prec) : Prop :=
+Definition FixedMeta (tgt : list N) (f : list pentry) (txns : list txn) (ref : option Z) (recs : list prec) : Prop :=
   StronglySorted str_lt (map pr_source recs) /\
   (forall c, In c (map pr_source recs) <->
-             In c (posting_comms txns) /\ exists e, In e f /\ pe_base e = c /\ pe_eq e = tgt /\ pe_ts e < ref) /\
+             In c (posting_comms txns) /\ exists e, In e f /\ pe_base e = c /\ pe_eq e = tgt /\ before_ref ref e = true) /\
   (forall r, In r recs ->
      pr_target r = tgt /\
-     exists e, In e f /\ pe_base e = pr_source r /\ pe_eq e = tgt /\ pe_ts e < ref /\
-               (forall e', In e' f -> pe_base e' = pr_source r -> pe_eq e' = tgt -> pe_ts e' < ref -> pe_ts e' <= pe_ts e) /\
+     exists e, In e f /\ pe_base e = pr_source r /\ pe_eq e = tgt /\ before_ref ref e = true /\
+               (forall e', In e' f -> pe_base e' = pr_source r -> pe_eq e' = tgt -> before_ref ref e' = true -> pe_ts e' <= pe_ts e) /\
                pr_used r = Some (pe_ts e, pe_rate e)).
 
 Lemma fixed_meta tgt f txns ref : distinct_keys f ->
@@ -778,8 +790,8 @@ Proof.
   set (m := fixed_cache used tgt ref db).
   assert (forall c ts r, assoc_get c m = Some (ts, r) ->
             mem_str c used = true /\
-            exists e, In e db /\ pe_base e = c /\ pe_eq e = tgt /\ pe_ts e < ref /\
-              (forall e', In e' db -> pe_base e' = c -> pe_eq e' = tgt -> pe_ts e' < ref -> pe_ts e' <= pe_ts e) /\
+            exists e, In e db /\ pe_base e = c /\ pe_eq e = tgt /\ before_ref ref e = true /\
+              (forall e', In e' db -> pe_base e' = c -> pe_eq e' = tgt -> before_ref ref e' = true -> pe_ts e' <= pe_ts e) /\
               ts = pe_ts e /\ r = pe_rate e) as Hget.
   { intros c ts r H. unfold m in H. rewrite fixed_cache_get in H.
     destruct (last_sat (fun e => fixed_keep used tgt ref e && str_eqb c (pe_base e)) db) as [e|] eqn:El; [|discriminate].
@@ -788,14 +800,14 @@ Proof.
     { unfold fixed_keep in Pe. rewrite !andb_true_iff in Pe. destruct Pe as [[[Hm _] _] Ec].
       apply str_eqb_eq in Ec. subst c. exact Hm. }
     split; [exact Hu|]. exists e. split; [exact Hin|].
-    rewrite (last_sat_ext _ (fun e => str_eqb (pe_base e) c && str_eqb (pe_eq e) tgt && (pe_ts e <? ref))) in El
+    rewrite (last_sat_ext _ (fun e => str_eqb (pe_base e) c && str_eqb (pe_eq e) tgt && before_ref ref e)) in El
       by (intros x _; apply fixed_keep_mcand; exact Hu).
     destruct (last_sat_some _ _ _ El) as [_ Pe'].
-    rewrite !andb_true_iff, !str_eqb_eq, Z.ltb_lt in Pe'. destruct Pe' as [[Hb He] Ht].
+    rewrite !andb_true_iff, !str_eqb_eq in Pe'. destruct Pe' as [[Hb He] Ht].
     repeat split; try assumption.
     intros e' Hin' Hb' He' Ht'.
     apply (last_sat_max _ db e (load_db_ts_sorted f Hd) El e' Hin').
-    rewrite Hb', He', !str_eqb_refl. cbn [andb]. apply Z.ltb_lt. exact Ht'. }
+    rewrite Hb', He', !str_eqb_refl. cbn [andb]. exact Ht'. }
   assert (NoDup (map fst m)) as Hnd by apply fixed_cache_NoDup.
   assert (forall e, In e db <-> In e f) as Hdb by (intros e; apply load_db_in_iff; exact Hd).
   unfold FixedMeta. rewrite map_map. cbn [pr_source]. split; [apply by_key_sorted; exact Hnd|]. split.
@@ -808,7 +820,7 @@ Proof.
         [eexists; reflexivity|].
       exfalso. apply Hdb in Hin. pose proof (proj1 (last_sat_none _ _) El e Hin) as Hf. cbv beta in Hf.
       rewrite fixed_keep_mcand in Hf by exact Hu.
-      rewrite Hb, He, !str_eqb_refl in Hf. cbn [andb] in Hf. rewrite Z.ltb_ge in Hf. lia.
+      rewrite Hb, He, !str_eqb_refl in Hf. cbn [andb] in Hf. congruence.
   - intros r Hr. apply in_map_iff in Hr. destruct Hr as [[k [ts rt]] [Er Hkv]]. subst r. cbn [pr_target pr_source pr_used fst snd].
     split; [reflexivity|]. apply (proj1 (by_key_in m _)) in Hkv. apply (proj1 (assoc_get_in m k (ts, rt) Hnd)) in Hkv.
     destruct (Hget k ts rt Hkv) as [_ [e [Hin [Hb [He [Ht [Hmax [Ets Er]]]]]]]].
@@ -817,10 +829,10 @@ Proof.
     + congruence.
 Qed.
 
-Lemma metadata_spec lk txns tgt f : file_ok lk f ->
+Lemma metadata_spec lk txns tgt f : distinct_keys f ->
   MetaSpec lk tgt f txns (metadata (make_ctx lk txns (Some tgt) (load_db f))).
 Proof.
-  intros [Hd Hr]. unfold make_ctx, metadata. destruct lk; cbn [c_target c_cache default_ctx].
+  intros Hd. unfold make_ctx, metadata. destruct lk; cbn [c_target c_cache default_ctx].
   - (* none *)
     split; [constructor|]. split; [|intros r []].
     intros c. cbn [map]. split; [intros []|]. intros [_ [e [_ [_ [_ F]]]]]. exact F.
@@ -841,25 +853,26 @@ Proof.
         destruct (comm_cache tgt c (load_db f)); [destruct Hcc|reflexivity].
     + intros r Hin. apply in_map_iff in Hin. destruct Hin as [kv [E _]]. subst r. split; reflexivity.
   - (* last-price *)
-    destruct (fixed_meta tgt f txns TS_MAX Hd) as [H1 [H2 H3]]. split; [exact H1|]. split.
+    destruct (fixed_meta tgt f txns None Hd) as [H1 [H2 H3]]. split; [exact H1|]. split.
     + intros c. rewrite H2. split; intros [Hu [e [Hin [Hb [He Ht]]]]]; (split; [exact Hu|]); exists e.
       * rewrite Hb, He, !str_eqb_refl. tauto.
-      * apply str_eqb_eq in Hb, He. pose proof (Hr eq_refl e Hin). tauto.
+      * apply str_eqb_eq in Hb, He. cbn [before_ref]. tauto.
     + intros r Hin. destruct (H3 r Hin) as [Et [e [Hin' [Hb [He [Ht [Hmax Hu]]]]]]]. split; [exact Et|].
       exists e, (pe_rate e). split; [|split; [exact Hu|apply dcmp_refl]]. split; [exact Hin'|]. split.
       * unfold candidate. rewrite Hb, He, !str_eqb_refl. reflexivity.
       * intros e' Hin2 C2. unfold candidate in C2. rewrite !andb_true_iff, !str_eqb_eq in C2.
-        destruct C2 as [[Hb2 He2] _]. apply Hmax; try assumption. apply (Hr eq_refl). exact Hin2.
+        destruct C2 as [[Hb2 He2] _]. apply Hmax; try assumption; try reflexivity.
   - (* given-time *)
-    destruct (fixed_meta tgt f txns t Hd) as [H1 [H2 H3]]. split; [exact H1|]. split.
-    + intros c. rewrite H2. split; intros [Hu [e [Hin [Hb [He Ht]]]]]; (split; [exact Hu|]); exists e.
-      * rewrite Hb, He, !str_eqb_refl. tauto.
-      * apply str_eqb_eq in Hb, He. tauto.
+    destruct (fixed_meta tgt f txns (Some t) Hd) as [H1 [H2 H3]]. split; [exact H1|]. split.
+    + intros c. rewrite H2.
+      split; intros [Hu [e [Hin [Hb [He Ht]]]]]; (split; [exact Hu|]); exists e.
+      * rewrite Hb, He, !str_eqb_refl. cbn [before_ref] in Ht. apply Z.ltb_lt in Ht. tauto.
+      * apply str_eqb_eq in Hb, He. cbn [before_ref]. apply Z.ltb_lt in Ht. tauto.
     + intros r Hin. destruct (H3 r Hin) as [Et [e [Hin' [Hb [He [Ht [Hmax Hu]]]]]]]. split; [exact Et|].
       exists e, (pe_rate e). split; [|split; [exact Hu|apply dcmp_refl]]. split; [exact Hin'|]. split.
-      * unfold candidate. rewrite Hb, He, !str_eqb_refl. cbn [andb in_time]. apply Z.ltb_lt. exact Ht.
+      * unfold candidate. rewrite Hb, He, !str_eqb_refl. cbn [andb in_time]. exact Ht.
       * intros e' Hin2 C2. unfold candidate in C2. cbn [in_time] in C2.
-        rewrite !andb_true_iff, !str_eqb_eq, Z.ltb_lt in C2.
+        rewrite !andb_true_iff, !str_eqb_eq in C2.
         destruct C2 as [[Hb2 He2] Ht2]. apply Hmax; assumption.
 Qed.
 
@@ -1023,18 +1036,27 @@ Definition ex_show (l : list (list conv)) : list (list (list N * Z * N * option 
   map (map (fun c => (cv_comm c, dm (cv_amount c), ds (cv_amount c),
                       option_map (fun r => (dm r, ds r)) (cv_rate c)))) l.
 
-Lemma ex_file_ok lk : file_ok lk ex_file /\ no_self_pair EUR ex_file.
+Lemma ex_file_ok : distinct_keys ex_file /\ no_self_pair EUR ex_file.
 Proof.
-  split; [split|].
+  split.
   - unfold distinct_keys. cbn.
     repeat (constructor; [cbn; intros H; repeat (destruct H as [H|H]; [discriminate H|]); exact H|]).
     constructor.
-  - intros _ e H. cbn in H. repeat (destruct H as [H|H]; [subst e; reflexivity|]). destruct H.
   - intros e H. cbn in H. repeat (destruct H as [H|H]; [subst e; reflexivity|]). destruct H.
 Qed.
 
+(* regression inputs of the two fixed findings:
+   F12: a self pair in the price file; F19: a line stamped exactly jiff Timestamp::MAX *)
+Definition TS_MAX : Z := 253402207200999999999.
+Definition f12_file : list pentry := [ mkPE 100 EUR (mkDec 2 0) EUR; mkPE 100 ACME (mkDec 3 0) EUR ].
+Definition f12_txns : list txn :=
+  [ mkTxn (ex_hdr 200) [ex_post 97 EUR 1 0; ex_post 98 EUR (-1) 0];
+    mkTxn (ex_hdr 300) [ex_post 99 ACME 1 0; ex_post 100 EUR (-3) 0] ].
+Definition tsmax_file : list pentry := [ mkPE 100 ACME (mkDec 3 0) EUR; mkPE TS_MAX ACME (mkDec 7 0) EUR ].
+Definition tsmax_txns : list txn := [ mkTxn (ex_hdr 200) [ex_post 97 ACME 1 0; ex_post 98 ACME (-1) 0] ].
+
 Lemma price_example :
-  (forall lk, file_ok lk ex_file) /\ no_self_pair EUR ex_file /\
+  distinct_keys ex_file /\ no_self_pair EUR ex_file /\
   ex_show (price_run LkTxnTime (Some EUR) ex_file ex_txns)
   = [ [ (ACME, 2, 0%N, None); (EUR, -6, 0%N, None) ];
       [ (EUR, 650, 2%N, Some (325, 2%N)); (EUR, 90, 1%N, Some (9, 1%N)); ([], 5, 0%N, None); (EUR, -1, 1%N, None) ] ] /\
@@ -1046,48 +1068,19 @@ Lemma price_example :
       [ (EUR, 70, 1%N, None); (EUR, 90, 1%N, None); ([], 5, 0%N, None); (EUR, -1, 1%N, None) ] ] /\
   map (fun r => (pr_source r, pr_used r)) (metadata (make_ctx LkLastPrice ex_txns (Some EUR) (load_db ex_file)))
   = [ (ACME, Some (300, mkDec 35 1)); (USD, Some (100, mkDec 9 1)) ] /\
-  RateAt LkTxnTime ex_file EUR ACME 200 (mkPE 200 ACME (mkDec 325 2) EUR).
+  RateAt LkTxnTime ex_file EUR ACME 200 (mkPE 200 ACME (mkDec 325 2) EUR) /\
+  (* F12 regression: EUR postings stay, ACME is converted, although the file has `EUR 2 EUR` *)
+  ex_show (price_run LkTxnTime (Some EUR) f12_file f12_txns)
+  = [ [ (EUR, 1, 0%N, None); (EUR, -1, 0%N, None) ]; [ (EUR, 3, 0%N, Some (3, 0%N)); (EUR, -3, 0%N, None) ] ] /\
+  (* F19 regression: last-price applies the line stamped Timestamp::MAX *)
+  ex_show (price_run LkLastPrice (Some EUR) tsmax_file tsmax_txns)
+  = [ [ (EUR, 7, 0%N, None); (EUR, -7, 0%N, None) ] ].
 Proof.
-  split; [intros lk; apply ex_file_ok|]. split; [apply (ex_file_ok LkNone)|].
+  split; [apply ex_file_ok|]. split; [apply ex_file_ok|].
   split; [vm_compute; reflexivity|]. split; [vm_compute; reflexivity|]. split; [vm_compute; reflexivity|].
   split; [vm_compute; reflexivity|].
-  apply rate_at_some. vm_compute. reflexivity.
-Qed.
-
-(* F12: a self pair in the price file converts postings that are already in the report commodity *)
-Definition f12_file : list pentry := [ mkPE 100 EUR (mkDec 2 0) EUR ].
-Definition f12_post : posting := ex_post 97 EUR 1 0.
-Definition f12_txns : list txn := [ mkTxn (ex_hdr 200) [f12_post; ex_post 98 EUR (-1) 0] ].
-
-Lemma target_unchanged_refuted :
-  exists lk txns tgt f t p,
-    file_ok lk f /\ In (p_comm p) (posting_comms txns) /\ p_comm p = tgt /\
-    convert_one lk txns tgt f t p <> unconverted p.
-Proof.
-  exists LkTxnTime, f12_txns, EUR, f12_file, 200, f12_post.
-  split; [split|].
-  - unfold distinct_keys. cbn. constructor; [intros []|constructor].
-  - discriminate.
-  - split; [left; reflexivity|]. split; [reflexivity|]. vm_compute. discriminate.
-Qed.
-
-(* an entry stamped exactly Timestamp::MAX is never used by last-price *)
-Definition tsmax_file : list pentry := [ mkPE 100 ACME (mkDec 3 0) EUR; mkPE TS_MAX ACME (mkDec 7 0) EUR ].
-Definition tsmax_post : posting := ex_post 97 ACME 1 0.
-Definition tsmax_txns : list txn := [ mkTxn (ex_hdr 200) [tsmax_post; ex_post 98 ACME (-1) 0] ].
-
-Lemma last_price_max_refuted :
-  exists txns tgt f t p e,
-    distinct_keys f /\ In (p_comm p) (posting_comms txns) /\ p_comm p <> [] /\
-    RateAt LkLastPrice f tgt (p_comm p) t e /\
-    convert_one LkLastPrice txns tgt f t p <> converted LkLastPrice tgt p e.
-Proof.
-  exists tsmax_txns, EUR, tsmax_file, 200, tsmax_post, (mkPE TS_MAX ACME (mkDec 7 0) EUR).
-  split.
-  { unfold distinct_keys. cbn. constructor; [intros [H|[]]; discriminate H|]. constructor; [intros []|constructor]. }
-  split; [left; reflexivity|]. split; [discriminate|]. split.
-  - apply rate_at_some. vm_compute. reflexivity.
-  - vm_compute. discriminate.
+  split; [apply rate_at_some; vm_compute; reflexivity|].
+  split; vm_compute; reflexivity.
 Qed.
 
 (* ------------------------------------------------------------------ *)
@@ -1099,7 +1092,7 @@ Lemma convert_prices_one lk txns tgt f tx :
 Proof.
   unfold convert_prices, convert_one. destruct lk; cbn [make_ctx c_target c_cache default_ctx]; try reflexivity.
   apply map_ext. intros p. symmetry.
-  apply (make_ctx_unchanged LkNone txns tgt (load_db f)). right. right. intros e _.
+  apply (make_ctx_unchanged LkNone txns tgt (load_db f)). right. right. right. intros e _.
   unfold mcand. cbn [model_time]. apply andb_false_r.
 Qed.
 
@@ -1109,25 +1102,22 @@ Proof.
 Qed.
 
 Lemma convert_one_spec lk txns tgt f t p :
-  file_ok lk f -> no_self_pair tgt f -> In (p_comm p) (posting_comms txns) ->
+  distinct_keys f -> In (p_comm p) (posting_comms txns) ->
   PostSpec lk tgt f t p (convert_one lk txns tgt f t p).
 Proof.
-  intros Hok Hns Hu. split.
-  - intros [H|[H|H]].
-    + apply convert_unchanged. left. exact H.
-    + apply convert_target_unchanged; assumption.
-    + apply convert_unchanged. right. right. exact H.
-  - intros e Hne _ HR. rewrite (convert_rate lk txns tgt f t p e) by assumption.
+  intros Hok Hu. split.
+  - intros [H|[H|H]]; apply convert_unchanged; tauto.
+  - intros e Hne Htg HR. rewrite (convert_rate lk txns tgt f t p e) by assumption.
     unfold converted, converted_with. cbn [cv_acc cv_comm cv_amount cv_rate]. repeat split.
     intros r Hr. destruct lk; cbn [shown] in Hr; congruence.
 Qed.
 
 Lemma model_meets_spec lk txns tgt f tx :
-  file_ok lk f -> no_self_pair tgt f -> In tx txns ->
+  distinct_keys f -> In tx txns ->
   Forall2 (PostSpec lk tgt f (h_inst (t_hdr tx))) (t_posts tx)
           (convert_prices (make_ctx lk txns (Some tgt) (load_db f)) tx).
 Proof.
-  intros Hok Hns Hin. rewrite convert_prices_one.
+  intros Hok Hin. rewrite convert_prices_one.
   assert (forall ps, (forall p, In p ps -> In p (t_posts tx)) ->
             Forall2 (PostSpec lk tgt f (h_inst (t_hdr tx))) ps
                     (map (convert_one lk txns tgt f (h_inst (t_hdr tx))) ps)) as G.
@@ -1145,4 +1135,66 @@ Proof.
   intros [H|H]; subst; unfold make_ctx, convert_prices.
   - reflexivity.
   - destruct target; reflexivity.
+Qed.
+
+(* ------------------------------------------------------------------ *)
+(* K. "the rates shown in the metadata are the ones applied" (fixed modes) *)
+
+Lemma RateAt_fixed_time lk f tgt c t t' e : is_fixed lk -> RateAt lk f tgt c t e -> RateAt lk f tgt c t' e.
+Proof. destruct lk; cbn [is_fixed]; intros F H; try destruct F; exact H. Qed.
+
+(* a record whose source is not the report commodity is applied to every posting in its commodity *)
+Lemma metadata_applied lk txns tgt f r :
+  distinct_keys f -> is_fixed lk ->
+  In r (metadata (make_ctx lk txns (Some tgt) (load_db f))) -> pr_source r <> tgt ->
+  RecordApplied lk txns tgt f r.
+Proof.
+  intros Hd Hfix Hr Hne tx p Htx Hp Ec Hc.
+  destruct (metadata_spec lk txns tgt f Hd) as [_ [_ H3]]. destruct (H3 r Hr) as [_ Hx].
+  assert (exists e rate, RateAt lk f tgt (pr_source r) 0 e /\ pr_used r = Some (pe_ts e, rate) /\ dcmp rate (pe_rate e) = Eq)
+    as [e [rate [HR [Hu Hq]]]] by (destruct lk; cbn [is_fixed] in Hfix; try destruct Hfix; exact Hx).
+  exists e, rate. split; [exact Hu|]. split; [exact Hq|].
+  apply convert_rate; try assumption.
+  - rewrite Ec. exact Hne.
+  - apply (posting_comms_in txns tx); assumption.
+  - rewrite Ec. apply (RateAt_fixed_time lk f tgt _ 0); assumption.
+Qed.
+
+(* ... in particular every record, when the file has no self pair of the report commodity *)
+Lemma metadata_all_applied lk txns tgt f r :
+  distinct_keys f -> is_fixed lk -> no_self_pair tgt f ->
+  In r (metadata (make_ctx lk txns (Some tgt) (load_db f))) ->
+  RecordApplied lk txns tgt f r.
+Proof.
+  intros Hd Hfix Hns Hr. apply metadata_applied; try assumption.
+  intros E. destruct (metadata_spec lk txns tgt f Hd) as [_ [_ H3]]. destruct (H3 r Hr) as [_ Hx].
+  assert (exists e rate, RateAt lk f tgt (pr_source r) 0 e /\ pr_used r = Some (pe_ts e, rate) /\ dcmp rate (pe_rate e) = Eq)
+    as [e [rate [[Hin [C _]] _]]] by (destruct lk; cbn [is_fixed] in Hfix; try destruct Hfix; exact Hx).
+  specialize (Hns e Hin). unfold candidate in C. unfold is_self_pair in Hns. rewrite E in C.
+  rewrite !andb_true_iff in C. destruct C as [[C1 C2] _]. rewrite C1, C2 in Hns. discriminate.
+Qed.
+
+(* with a self pair the record EUR -> EUR is listed although it is never applied *)
+Lemma metadata_applied_refuted :
+  exists lk txns tgt f r,
+    distinct_keys f /\ is_fixed lk /\
+    In r (metadata (make_ctx lk txns (Some tgt) (load_db f))) /\ ~ RecordApplied lk txns tgt f r.
+Proof.
+  exists LkLastPrice, f12_txns, EUR, f12_file, (mkPrec EUR EUR (Some (100, mkDec 2 0))).
+  split.
+  { unfold distinct_keys. cbn. constructor; [intros [H|[]]; discriminate H|]. constructor; [intros []|constructor]. }
+  split; [exact I|]. split; [vm_compute; right; left; reflexivity|].
+  intros H.
+  destruct (H (mkTxn (ex_hdr 200) [ex_post 97 EUR 1 0; ex_post 98 EUR (-1) 0]) (ex_post 97 EUR 1 0))
+    as [e [rate [Hu [Hq Hc]]]].
+  - left. reflexivity.
+  - left. reflexivity.
+  - reflexivity.
+  - discriminate.
+  - rewrite (convert_target_unchanged LkLastPrice f12_txns EUR f12_file) in Hc by reflexivity.
+    cbn [pr_used] in Hu. injection Hu as _ Hrate. subst rate.
+    unfold unconverted, converted, ex_post in Hc. cbn [p_acc p_comm p_amount] in Hc. injection Hc as Ha.
+    destruct (pe_rate e) as [m sc]. unfold dmul, is_zero in Ha. cbn [dm ds orb Z.eqb] in Ha.
+    destruct (m =? 0); [discriminate Ha|]. injection Ha as H1 H2.
+    assert (m = 1) by (destruct m; congruence). subst m sc. vm_compute in Hq. discriminate Hq.
 Qed.
